@@ -401,25 +401,47 @@ def compare_bytecode(ctx, inputs, impl, model):
                            "opcodes_never_emitted": [o for o in OPNAMES[1:] if o not in ops]}
 
 
-# ---- C03, ordering clause: "in an ordered list of sources a later one contributes only when the earlier ones have
-# given all they can", evaluated on the postings alone for the fragment where it is easy to state without the Lean Spec
+# ---- C03, ordering clause: "in an ordered list of sources a later one contributes only when the earlier ones have given all they can"
+# (and, with it: what an ordered destination keeps is taken from the END of the funding, so the postings drain the sources front to
+# back for what is actually sent; `send [A *]` moves exactly what its sources hold AT THAT POINT of the script), evaluated on the
+# postings alone, send by send, for the fragment where this can be stated without the Lean Spec
 
-def ordered_expectation(inp):
-    """None when the script is outside the fragment; else dict(asset, amount, dest, leaves, repeated, expected) where
-    expected is None (the sources cannot cover the amount) or the list [(account, amount)] the leaves give, front to back.
+class _Short(Exception):
+    pass
 
-    Fragment: the only balance-touching statement is one `send [A n]` (n >= 0) with a plain account as destination and a
-    source that is an ordered list (possibly nested) of `@acct`, `@acct allowing overdraft up to [A k]` and `max [A m] from <such
-    a source>`, everything in asset A, no @world, no unbounded overdraft, no allotment.  A leaf can give balance + overdraft minus
-    what the same account already gave earlier in the list; a `max` caps what passes through it."""
-    stmts = inp["ast"]["stmts"]
-    sends = [s for s in stmts if s["k"] == "send"]
-    if len(sends) != 1 or any(s["k"] not in ("send", "print", "setTxMeta", "setAccountMeta") for s in stmts):
+
+def merge_adjacent(pairs):
+    """drop the zero amounts, add up neighbours with the same key: [(key…, amount)]"""
+    out = []
+    for t in pairs:
+        k, g = tuple(t[:-1]), t[-1]
+        if g == 0:
+            continue
+        if out and out[-1][:-1] == k:
+            out[-1] = k + (out[-1][-1] + g,)
+        else:
+            out.append(k + (g,))
+    return out
+
+
+def send_expectation(st, R, env, acct_of, asset_of):
+    """None when the send is outside the fragment; else what it must post when the balances are R (the stored balances with the
+    postings of the earlier statements of the script applied): dict(asset, all, amount, available, kept, leaves, repeated, bottomless,
+    expected) where expected is None (the sources cannot cover the amount, or the destination is told to keep more than it
+    receives: the send must fail) or the list [(source, destination, amount)] in order, neighbours merged, zero amounts dropped.
+
+    Fragment: `send [A n]` (n >= 0) or `send [A *]`; a source that is an account or an ordered list (possibly nested) of `@acct`,
+    `@acct allowing overdraft up to [A k]`, `max [A m] from <such a source>`, and — with a stated amount — `@world` /
+    `@acct allowing unbounded overdraft`; a destination that is an account or an ordered destination whose entries are
+    `max [A m] kept`, `max [A m] to <destination>`, `remaining kept`, `remaining to <destination>`, nested at will; everything in
+    asset A; no allotment.
+    Sources: a leaf can give balance + overdraft minus what the same account already gave earlier in the list (a bottomless one:
+    whatever is still asked for); a `max` caps what passes through it; the leaves are drained front to back.
+    Destinations: the entries are served front to back, each `max` entry taking at most its cap from what is left; what an entry
+    or a nested destination does not send comes back in front of what is left; all that is kept is finally taken from the END of
+    the funding — so the units actually sent are the FIRST ones of the funding, in the order of the entries."""
+    if st["src"]["k"] != "src":
         return None
-    st = sends[0]
-    if st["amt"]["k"] != "mon" or st["src"]["k"] != "src" or st["dst"]["k"] != "acct":
-        return None
-    env, bal, acct_of, asset_of = resolve_env(inp)
 
     def mon(e):
         try:
@@ -430,90 +452,197 @@ def ordered_expectation(inp):
             raise _Outside()
         return m
 
-    given, out, leaves = collections.Counter(), [], []
+    given, pieces, leaves, flags = collections.Counter(), [], [], set()
 
-    def give(s, limit, asset):
+    def give(s, limit, asset):          # limit None: no limit (send-all)
         if s["k"] == "acct":
             a = acct_of(s["e"])
-            if a is None or a == "world":
+            od = s.get("od")
+            world = s["e"]["k"] == "acct" and s["e"]["v"] == "world"
+            if a is None or (a == "world" and not world):
                 raise _Outside()
-            o, od = 0, s.get("od")
-            if od is not None:
-                if od["k"] != "upto":
-                    raise _Outside()
-                oa, o = mon(od["e"])
-                if oa != asset:
-                    raise _Outside()
             leaves.append(a)
-            g = min(max(0, bal.get((a, asset), 0) + o - given[a]), limit)
+            if world or (od is not None and od["k"] == "unbounded"):
+                if limit is None or (world and od is not None):
+                    raise _Outside()
+                flags.add("bottomless")
+                g = limit
+            else:
+                o = 0
+                if od is not None:
+                    if od["k"] != "upto":
+                        raise _Outside()
+                    oa, o = mon(od["e"])
+                    if oa != asset:
+                        raise _Outside()
+                g = max(0, R.get((a, asset), 0) + o - given[a])
+                if limit is not None:
+                    g = min(g, limit)
             if g > 0:
                 given[a] += g
-                out.append((a, g))
+                pieces.append((a, g))
             return g
         if s["k"] == "max":
             ca, c = mon(s["cap"])
             if ca != asset:
                 raise _Outside()
-            return give(s["s"], min(limit, c), asset)
+            return give(s["s"], c if limit is None else min(limit, c), asset)
         if s["k"] != "inorder":
             raise _Outside()
         tot = 0
         for x in s["ss"]:
-            tot += give(x, limit - tot, asset)
+            tot += give(x, None if limit is None else limit - tot, asset)
         return tot
+
+    def flow(d, amount, asset):
+        """(what is sent, in order: [(account, amount)], how much is handed back)"""
+        if d["k"] == "acct":
+            a = acct_of(d["e"])
+            if a is None:
+                raise _Outside()
+            return [(a, amount)], 0
+        if d["k"] != "inorder":
+            raise _Outside()
+        cur, kept, sent = amount, 0, []
+        for c in d["caps"]:
+            ca, m = mon(c["cap"])
+            if ca != asset:
+                raise _Outside()
+            t = min(m, cur)
+            if c["kd"]["k"] == "kept":
+                flags.add("max-kept")
+                kept += t                 # set aside by amount only; the funding stays as it is
+            else:
+                e, k = flow(c["kd"]["d"], t, asset)
+                sent += e
+                cur, kept = cur - t + k, kept + k
+        if kept > cur:
+            raise _Short()
+        if d["rest"]["k"] == "kept":
+            return sent, cur
+        e, k = flow(d["rest"]["d"], cur - kept, asset)
+        return sent + e, kept + k
     try:
-        asset, n = mon(st["amt"]["e"])
-        dest = acct_of(st["dst"]["e"])
-        if dest is None:
-            return None
-        tot = give(st["src"]["s"], n, asset)
-    except (_Outside, KeyError, TypeError):
+        if st["amt"]["k"] == "mon":
+            asset, n = mon(st["amt"]["e"])
+        else:
+            asset, n = asset_of(st["amt"]["asset"]), None
+            if asset is None:
+                return None
+        avail = give(st["src"]["s"], n, asset)
+        covered = n is None or avail == n
+        expected, kept = None, None
+        if covered:
+            try:
+                sent, kept = flow(st["dst"], avail, asset)
+                expected, i, left = [], 0, 0
+                for dest, amt in sent:      # the units sent are the first ones of the funding, entry after entry
+                    while amt > 0:
+                        if left == 0:
+                            a, left = pieces[i]
+                            i += 1
+                        t = min(left, amt)
+                        expected.append((a, dest, t))
+                        left, amt = left - t, amt - t
+                expected = merge_adjacent(expected)
+            except _Short:
+                expected = None
+    except (_Outside, KeyError, TypeError, IndexError):
         return None
     seen_at = {}
     for k, a in enumerate(leaves):
         seen_at.setdefault(a, []).append(k)
-    return {"asset": asset, "amount": n, "dest": dest, "leaves": len(leaves),
+    return {"asset": asset, "all": n is None, "amount": n, "available": avail, "kept": kept, "has_kept": has_kept(st["dst"]),
+            "ordered_dst": st["dst"]["k"] == "inorder",
+            "max_kept": "max-kept" in flags, "bottomless": "bottomless" in flags, "leaves": len(leaves), "parts": len(merge_adjacent(pieces)),
             "repeated": any(b - a > 1 for ps in seen_at.values() for a, b in zip(ps, ps[1:])),
-            "expected": merge_adjacent(out) if tot == n else None}
+            "expected": expected}
 
 
-def merge_adjacent(pairs):
-    out = []
-    for a, g in pairs:
-        if g == 0:
-            continue
-        if out and out[-1][0] == a:
-            out[-1] = (a, out[-1][1] + g)
-        else:
-            out.append((a, g))
-    return out
-
-
-def ordered_sources_verdict(inp, out, stats=None):
-    """None, or what is wrong with the order in which the postings of `out` drain the sources of `inp`"""
+def ordered_verdicts(inp, out, stats=None):
+    """[(signature keys, what)]: what is wrong with the way the postings of `out` drain the sources / serve the ordered destinations
+    of the sends of `inp`, statement by statement.  Scripts whose only balance-touching statements are sends (no `save`, no `fail`);
+    with several sends, every posting must be attributable to one statement from the output alone (`attribute`), and each send is
+    judged on the stored balances with the postings of the earlier statements applied."""
     if "postings" not in out:
-        return None
-    try:
-        ex = ordered_expectation(inp)
-    except Exception:
-        ex = None
-    if ex is None:
-        return None
-    got = merge_adjacent([(p[0], int(p[2])) for p in out["postings"]])
+        return []
+    stmts = inp["ast"]["stmts"]
+    sends = [s for s in stmts if s["k"] == "send"]
+    if not sends or any(s["k"] not in ("send", "print", "setTxMeta", "setAccountMeta") for s in stmts):
+        return []
+    postings = out["postings"]
+    env, bal, acct_of, asset_of = resolve_env(inp)
+    if len(sends) == 1:
+        owner = [0] * len(postings)
+    else:
+        table, _ = send_table(inp)
+        own = attribute(table, postings)
+        if own is None or any(len(o) != 1 for o in own):
+            if stats is not None:
+                stats["scripts_of_several_sends_whose_postings_cannot_be_attributed"] += 1
+            return []
+        owner = [o[0] for o in own]
+    R, v = dict(bal), []
+    for k, st in enumerate(sends):
+        mine = [p for p, o in zip(postings, owner) if o == k]
+        try:
+            ex = send_expectation(st, R, env, acct_of, asset_of)
+        except Exception:
+            ex = None
+        if ex is not None:
+            w = _send_verdict(ex, mine, k, len(sends), stats)
+            if w:
+                v.append(w)
+        for src, dst, amt, asset in mine:
+            R[(src, asset)] = R.get((src, asset), 0) - int(amt)
+            R[(dst, asset)] = R.get((dst, asset), 0) + int(amt)
+    return v
+
+
+def _send_verdict(ex, mine, k, nsends, stats):
+    got = merge_adjacent([(p[0], p[1], int(p[2])) for p in mine])
+    got_src = merge_adjacent([(p[0], int(p[2])) for p in mine])
+    moved = sum(t[-1] for t in got)
+    where = "" if nsends == 1 else "statement %d of %d (balances: the stored ones with the postings of the earlier statements applied): " % (k + 1, nsends)
     if stats is not None:
         stats["evaluated"] += 1
+        stats["in_a_script_of_several_sends_not_the_first"] += 1 if k > 0 else 0
         stats["with_an_account_at_two_non_adjacent_places"] += 1 if ex["repeated"] else 0
-        stats["several_sources_contribute"] += 1 if len(got) > 1 else 0
-    stray = [p for p in out["postings"] if int(p[2]) != 0 and (p[1] != ex["dest"] or p[3] != ex["asset"])]
+        stats["several_sources_contribute"] += 1 if len(got_src) > 1 else 0
+        stats["send_all"] += 1 if ex["all"] else 0
+        stats["send_all_after_an_earlier_send"] += 1 if ex["all"] and k > 0 else 0
+        stats["ends_with_world_or_an_unbounded_overdraft"] += 1 if ex["bottomless"] else 0
+        stats["ordered_destination"] += 1 if ex["ordered_dst"] else 0
+        stats["destination_keeps_something"] += 1 if ex["kept"] else 0
+        stats["max_kept_entry"] += 1 if ex["max_kept"] else 0
+        stats["max_kept_entry_keeps_from_a_funding_of_several_parts"] += 1 if ex["max_kept"] and ex["kept"] and ex["parts"] > 1 else 0
     want = ex["expected"]
+    sig = {"kept": True} if ex["has_kept"] else {}
     if want is None:
-        return "the ordered sources can give less than the %d %s asked for, yet the send went through: %s" % (ex["amount"], ex["asset"], got)
+        if ex["all"] or ex["available"] == ex["amount"]:
+            return (dict(sig, **{"class": "kept-amount"}), where + "the ordered destination is told to keep more than it receives (%d %s), yet the send went through: %s"
+                    % (ex["available"], ex["asset"], got))
+        return (dict(sig, **{"class": "ordered-sources"}), where + "the ordered sources can give less than the %d %s asked for, yet the send went through: %s"
+                % (ex["amount"], ex["asset"], got_src))
+    stray = [p for p in mine if int(p[2]) != 0 and p[3] != ex["asset"]]
     if stray:
-        return "a posting goes elsewhere than %s / %s: %s" % (ex["dest"], ex["asset"], stray[0])
+        return (dict(sig, **{"class": "ordered-sources"}), where + "a posting goes elsewhere than in %s: %s" % (ex["asset"], stray[0]))
+    want_src = merge_adjacent([(t[0], t[2]) for t in want])
+    should = sum(t[-1] for t in want)
+    if moved != should and ex["all"] and not ex["has_kept"]:
+        return ({"class": "send-all-not-exact"}, where + "`send [%s *]` must move everything its sources hold at that point, %d (%s); the postings move %d (%s)"
+                % (ex["asset"], should, want_src, moved, got_src))
+    if moved != should and ex["has_kept"]:
+        return (dict(sig, **{"class": "kept-amount"}), where + "of the %d %s that reach the destination the text keeps %d and sends %d; the postings send %d (%s)"
+                % (ex["available"], ex["asset"], ex["kept"], should, moved, got))
+    if got_src != want_src:
+        j = next((j for j in range(min(len(got_src), len(want_src))) if got_src[j] != want_src[j]), min(len(got_src), len(want_src)))
+        return (dict(sig, **{"class": "ordered-sources"}),
+                where + "sources are not drained in order: giving all they can front to back%s yields %s, the postings say %s (first difference at contribution %d)"
+                % (" for the %d actually sent (what is kept comes off the END of the funding)" % should if ex["has_kept"] else "", want_src, got_src, j))
     if got != want:
-        k = next((j for j in range(min(len(got), len(want))) if got[j] != want[j]), min(len(got), len(want)))
-        return ("sources are not drained in order: giving all they can front to back yields %s, the postings say %s (first difference at "
-                "contribution %d)" % (want, got, k))
+        return (dict(sig, **{"class": "ordered-destinations"}),
+                where + "the entries of the destination are not served front to back: expected %s, the postings say %s" % (want, got))
     return None
 
 
